@@ -28,6 +28,8 @@ func checkC11(w *World, r *Report) {
 	r.Rule("R11.8", "the downstream fragment size recorded as working is the very value that was probed", 1)
 	r.Rule("R11.7", "the upstream fragment size is recomputed after the last change of the upstream codec", 1)
 	r.Rule("R11.6", "the committed query type passed its probe", 1)
+	r.Rule("R11.11", "the server decodes what the probed codec sent: the regular expressions of the name unescaper are anchored (an unanchored one corrupts only names the probe pattern does not contain)", 1)
+	ruleUnescaperRegexpsAnchored(w, r, "R11.11")
 	r.Rule("R11.10", "the step that commits a probed value (the fragment-size switch) reports a failed exchange with the server as a failure", 1)
 	c11MandatoryStepsReportCommunicationErrors(w, r)
 	r.Rule("R11.9", "no step of the handshake can end the process instead of reporting: every Unlock in the DNS client releases a mutex held on every path reaching it", 10)
